@@ -110,6 +110,47 @@ def ofUnion : LFields → (store off : Nat) → Members
   | .cons nm l t, store, off => .cons (.name nm) (ofLayout l store off false) (ofUnion t store off)
 end
 
+/-! ## nested `ArrayProxy`s: `arr[i][j][k]` over `Array`s of `Array`s of … of views -/
+
+mutual
+/-- the tree of elements of a (possibly nested) `ArrayProxy`: `proxy.elems` are views (`leaf`, the signal of the
+    view) or again proxies (`node`) -/
+inductive PTree
+  | leaf (store : Nat)
+  | node (cs : PTrees)
+inductive PTrees
+  | nil
+  | cons (t : PTree) (ts : PTrees)
+end
+
+mutual
+/-- `flatten_elems` (assign.py:32-37): all views below the proxy, recursively through nested proxies -/
+def PTree.leaves : PTree → List Nat
+  | .leaf s => [s]
+  | .node cs => cs.leaves
+def PTrees.leaves : PTrees → List Nat
+  | .nil => []
+  | .cons t ts => t.leaves ++ ts.leaves
+end
+
+mutual
+/-- the element chosen at run time by the index values, outermost index first -/
+def PTree.select : PTree → List Nat → Option Nat
+  | .leaf s, [] => some s
+  | .leaf _, _ :: _ => none
+  | .node _, [] => none
+  | .node cs, i :: is => cs.select i is
+def PTrees.select : PTrees → Nat → List Nat → Option Nat
+  | .nil, _, _ => none
+  | .cons t _, 0, is => t.select is
+  | .cons _ ts, i + 1, is => ts.select i is
+end
+
+/-- `arr[i]…[k]` as an object: the field set of a homogeneous proxy is that of its element layout (the
+    intersection over all `leaves`), the statement generated for it drives the selected leaf -/
+def nestedProxy (t : PTree) (idxs : List Nat) (tmpl : Obj) : Option Obj :=
+  (t.select idxs).map fun s => .proxy (t.leaves.idxOf s) t.leaves tmpl
+
 /-! ## field selections -/
 
 inductive Mode | common | lhs | rhs | all
